@@ -22,8 +22,8 @@ Record lst := mkL {
   l_q : list (nat * nat);         (* active qubit handle -> virtual id, activation order *)
   l_next : nat;                   (* next array address *)
   l_decl : list arrdecl;          (* arrays to declare and return in this block *)
-  l_ret : list nat;               (* M registers to return in this block *)
-  l_rf : list (nat * nat);        (* register future -> M index *)
+  l_ret : list reg;               (* registers to return in this block *)
+  l_rf : list (nat * reg);        (* register future -> its register (M_k of a measurement, R_k of new_register) *)
   l_lv : list (nat * nat);        (* loop variable in scope -> R index *)
   l_len : list (nat * nat)        (* array -> length *)
 }.
@@ -60,6 +60,16 @@ Definition take (st : lst) : res (nat * lst) :=
       let a := set_nth (l_act st) i true in
       Ok (i, with_act st a (Nat.max (l_peak st) (count_true a)))
   end.
+(* a register named by the program (loop_register=R_k): activated unless it already is;
+   the flag says whether this claim has to release it again *)
+Definition claim (k : nat) (st : lst) : res (nat * lst * bool) :=
+  match nth_error (l_act st) k with
+  | None => Err EIll
+  | Some true => Ok (k, st, false)
+  | Some false =>
+      let a := set_nth (l_act st) k true in
+      Ok (k, with_act st a (Nat.max (l_peak st) (count_true a)), true)
+  end.
 (* remove_active_register *)
 Definition release (i : nat) (st : lst) : lst := with_act st (set_nth (l_act st) i false) (l_peak st).
 
@@ -76,7 +86,7 @@ Definition take_m (st : lst) (keep : bool) : res (nat * lst) :=
   | Some i =>
       Ok (i, if keep
              then mkL (l_act st) (l_peak st) (set_nth (l_mused st) i true) (l_q st) (l_next st) (l_decl st)
-                      (l_ret st ++ [i]) (l_rf st) (l_lv st) (l_len st)
+                      (l_ret st ++ [Rg BM i]) (l_rf st) (l_lv st) (l_len st)
              else st)
   end.
 
